@@ -128,7 +128,9 @@ ClassifyToken(tok, ro) ==
   ELSE IF tok[1] = HASH THEN HashToken(tok, cps, ro)
   ELSE IF IsDecimalLiteral(tok) THEN
          LET d == DenoteDecimal(tok) IN
-         IF d.t = "range" THEN Rej ELSE IF d.t = "edge" THEN Unspec ELSE Ok(Num(d), 0)
+         \* out of range: an error - unless leading-digit symbols make the token a possible symbol
+         IF d.t = "range" THEN (IF ro.digits /\ IsDigit(tok[1]) THEN Unspec ELSE Rej)
+         ELSE IF d.t = "edge" THEN Unspec ELSE Ok(Num(d), 0)
   ELSE IF IsDigit(tok[1]) THEN
          \* digit-initial and not a literal: a symbol iff leading-digit symbols are enabled - never a number
          IF post \/ DecShape(tok).cut THEN (IF ro.digits THEN Unspec ELSE NoNum)
@@ -435,7 +437,9 @@ ReadDatum(bs, i, ro) ==
                  (IF SkipTrivia(bs, k) <= n /\ bs[SkipTrivia(bs, k)] = LP THEN Unspec ELSE Rej)
           ELSE LET c == ClassifyToken(tok, ro) IN
                IF c.t = "ok" THEN Ok(c.v, k)
-               ELSE IF k > n /\ c.t \in {"rej", "unspec", "nonum"} /\ Utf8Ok(tok) /\ TokenCut(tok) THEN Inc
+               \* a digit-initial token is a complete symbol when leading-digit symbols are enabled
+               ELSE IF k > n /\ c.t \in {"rej", "unspec", "nonum"} /\ Utf8Ok(tok) /\ TokenCut(tok)
+                       /\ ~(ro.digits /\ IsDigit(tok[1])) THEN Inc
                ELSE IF k > n /\ ~Utf8Ok(tok) /\ Utf8CutFrom(tok, 1) THEN Inc    \* the input ends inside a multi-byte character
                ELSE c
 
